@@ -43,10 +43,19 @@ for cp in range(0x80, 0x110000):
         continue
     ch = chr(cp)
     nf = unicodedata.normalize("NFKC", ch)
-    if not any(ord(c) < 128 and not (c.isalnum() or c in "-.") for c in nf):
+    if not any(ord(c) < 128 for c in nf):
         continue
+    odd = any(ord(c) < 128 and not (c.isalnum() or c in "-.") for c in nf)
+    hexish = all(c in "0123456789abcdefABCDEF:." for c in nf)
+    if not (odd or hexish):
+        continue          # compatibility LETTERS outside the hex digits only ever make reg-name text
     odd_hits += 1
-    for kind, s in (("URL", "http://a%sb.com/p" % ch), ("URL", "http://%s/" % ch), ("URL", "http://u@a%s:81/" % ch), ("build", "a%sb.com" % ch), ("build", "u@x%s:81" % ch)):
+    cases = [("URL", "http://a%sb.com/p" % ch), ("URL", "http://%s/" % ch), ("URL", "http://u@a%s:81/" % ch), ("build", "a%sb.com" % ch), ("build", "u@x%s:81" % ch)]
+    if hexish:
+        # text that becomes an IP-literal only through the compatibility mapping (fullwidth / circled / superscript digits and a-f)
+        cases += [("URL", "http://[%s:0:0:0:0:0:0:2]/" % ch), ("URL", "http://[1::%s]/p" % ch), ("URL", "http://[::ffff:1.2.3.%s]/" % ch), ("URL", "http://1.2.3.%s/" % ch),
+                  ("URL", "http://[fe80::%s%%25eth0]:81/" % ch), ("build", "[%s::1]:81" % ch), ("build", "1.2.%s.4" % ch)]
+    for kind, s in cases:
         try:
             u = URL(s) if kind == "URL" else URL.build(scheme="http", authority=s)
         except ValueError:
